@@ -658,3 +658,7 @@ _add(
     "C05",
     m("catch-key-without-context", S, "    key_args = catch_args + ((context,) if context else ())\n", "    key_args = catch_args\n", "C05.7"),
 )
+_add(
+    "C25",
+    m("fork-candidates-exclude-child", D, "        fork_candidates = [*parent_handles, child_handle]\n", "        fork_candidates = [*parent_handles]\n", "C25.5"),
+)
